@@ -52,6 +52,11 @@ theorem iter_progress_yielded (init : Option Nat) (R Y n : Nat) (C : Bool) (evs 
       .ok Y (ist R (wrapAdd Y n) C (evs ++ [.faa .Y .acqrel Y n])) := by
   simp [Iter.progress_yielded_counter, Counter.fetch_and_add, iter, ist, bind, M.bind, pure, M.pure, m_fetch_add]
 
+/-- **`into_seq_iter` of the wrapper hands the wrapped iterator back as it is**: `self.iter.into_inner()` — no atomic access, no
+poll, nothing skipped or replayed (whatever the wrapped iterator has not yet yielded is what it yields next) -/
+theorem iter_into_seq_iter (init : Option Nat) (s : St) :
+    Iter.into_seq_iter (iter init) s = .ok {} s := rfl
+
 /-- `AtomicIter::counter` of the wrapper is the *reserved* counter (the one `try_get_len` and clones of the trait read) -/
 theorem iter_counter_is_reserved (init : Option Nat) (s : St) :
     Iter.counter (iter init) s = .ok { current := { loc := .R } } s := rfl
